@@ -177,6 +177,18 @@ def probe_bus_direct(v, bus=None, labels=()):
     return (str(v), str(lab), tuple(f.shape), str(g.name), digest(f.iloc[0]) if f.shape[0] else '')
 
 
+def probe_bus_whole(v, bus=None, labels=()):
+    '''Some tasks read the whole Bus (items / values), others one label: whole-Bus reads must never see a placeholder.'''
+    h = int(v) if isinstance(v, (int, np.integer)) else sum(map(ord, str(v)))
+    if h % 3 == 0:
+        return (str(v), 'items', tuple((str(k), type(f).__name__, tuple(f.shape)) for k, f in bus.items()))
+    if h % 3 == 1:
+        return (str(v), 'values', tuple((type(f).__name__, tuple(f.shape)) for f in bus.values))
+    lab = labels[h % len(labels)]
+    f = bus[lab]
+    return (str(v), str(lab), type(f).__name__, tuple(f.shape))
+
+
 def alloc_probe(v, sizes=(3, 9, 5)):
     '''Several containers with default (auto-integer) indices of different sizes per task: every one asks the
     process-wide positions allocator, so tasks meet inside it with requests below, between and above its capacity.'''
